@@ -356,6 +356,8 @@ class Call2Mixin:
       return VExc(name, list(args))
     schema = self.reg.classes.get(name)
     obj = VObj(name, {}, frozen=False, types=dict(schema.fields) if schema else {}, tag=self.path.fresh_name(name))
+    self.__dict__.setdefault('run_created', set()).add(id(obj))
+    self.__dict__.setdefault('run_created_keep', []).append(obj)     # keeps id() unique for the path's lifetime
     if schema:
       for k in schema.lazy:
         pass
